@@ -80,6 +80,7 @@ inductive PE where
   | paren (e : PE)
   | neg (e : PE)
   | bin (op : BinOp) (a b : PE)
+  | union (a b : PE)
   | call0 (fn : Fn)
   | call1 (fn : Fn) (a : PE)
   | call2 (fn : Fn) (a b : PE)
@@ -101,6 +102,7 @@ def PE.toks : PE → List Tok
   | .paren e => .ch (chr '(') :: (e.toks ++ [.ch (chr ')')])
   | .neg e => .ch (chr '-') :: e.toks
   | .bin op a b => a.toks ++ opTok op :: b.toks
+  | .union a b => a.toks ++ .ch (chr '|') :: b.toks
   | .call0 fn => [.func fn, .ch (chr '('), .ch (chr ')')]
   | .call1 fn a => .func fn :: .ch (chr '(') :: (a.toks ++ [.ch (chr ')')])
   | .call2 fn a b => .func fn :: .ch (chr '(') :: (a.toks ++ .ch (chr ',') :: (b.toks ++ [.ch (chr ')')]))
@@ -115,10 +117,21 @@ def PE.code : PE → List PI
   | .paren e => e.code
   | .neg e => e.code ++ [.negate]
   | .bin op a b => a.code ++ b.code ++ [binPI op]
+  | .union a b => a.code ++ b.code ++ [.union]
   | .call0 fn => [.bltin fn]
   | .call1 fn a => a.code ++ [.bltin fn]
   | .call2 fn a b => a.code ++ b.code ++ [.bltin fn]
   | .call3 fn a b c => a.code ++ b.code ++ c.code ++ [.bltin fn]
+
+/-- a path-level expression (PathExpr): what `pPath` parses -/
+def PE.pl : PE → Bool
+  | .path .. | .num _ | .lit _ | .paren _ | .call0 _ | .call1 .. | .call2 .. | .call3 .. => true
+  | _ => false
+
+/-- a union-level expression (UnionExpr): a path-level expression or a union -/
+def PE.ul : PE → Bool
+  | .union .. => true
+  | e => e.pl
 
 def tk (s : PSt) : List Tok := s.toks.map (·.tok)
 def advN (n : Nat) (s : PSt) : PSt := { s with toks := s.toks.drop n, pos := s.pos + n }
@@ -152,6 +165,7 @@ def PE.fits : Nat → PE → Prop
   | _, .paren e => e.fits 0
   | _, .neg e => e.fits 6
   | l, .bin op a b => l ≤ level op ∧ a.fits (level op) ∧ b.fits (level op + 1)
+  | _, .union a b => a.ul = true ∧ a.fits 6 ∧ b.pl = true ∧ b.fits 6      -- left-associative, binds tighter than unary minus
   | _, .call0 fn => fn.sig.1.length = 0
   | _, .call1 fn a => fn.sig.1.length = 1 ∧ a.fits 0
   | _, .call2 fn a b => fn.sig.1.length = 2 ∧ a.fits 0 ∧ b.fits 0
@@ -193,6 +207,10 @@ theorem done_paren (e : PE) (s : PSt) : done (.paren e) s = adv (done e (adv s))
 
 theorem done_bin (op : BinOp) (a b : PE) (s : PSt) :
     done (.bin op a b) s = emit (done b (adv (done a s))) (binPI op) := by
+  apply PSt.ext' <;> simp [done, advN, adv, emit, PE.toks, PE.code, List.drop_drop, Nat.add_comm, Nat.add_assoc, Nat.add_left_comm]
+
+theorem done_union (a b : PE) (s : PSt) :
+    done (.union a b) s = emit (done b (adv (done a s))) .union := by
   apply PSt.ext' <;> simp [done, advN, adv, emit, PE.toks, PE.code, List.drop_drop, Nat.add_comm, Nat.add_assoc, Nat.add_left_comm]
 
 theorem done_strict (e : PE) (s : PSt) : (done e s).strict = s.strict := rfl
@@ -246,6 +264,9 @@ theorem toks_start (e : PE) : ∃ t r, e.toks = t :: r ∧ startTok t := by
   | bin op a b iha _ =>
     obtain ⟨t, r, h, ht⟩ := iha
     exact ⟨t, r ++ opTok op :: b.toks, by simp [PE.toks, h], ht⟩
+  | union a b iha _ =>
+    obtain ⟨t, r, h, ht⟩ := iha
+    exact ⟨t, r ++ .ch (chr '|') :: b.toks, by simp [PE.toks, h], ht⟩
   | call0 fn => exact ⟨_, _, rfl, .inr (.inr (.inr (.inr (.inl ⟨fn, rfl⟩))))⟩
   | call1 fn a _ => exact ⟨_, _, rfl, .inr (.inr (.inr (.inr (.inl ⟨fn, rfl⟩))))⟩
   | call2 fn a b _ _ => exact ⟨_, _, rfl, .inr (.inr (.inr (.inr (.inl ⟨fn, rfl⟩))))⟩
@@ -270,6 +291,20 @@ def C (e : PE) (k : Nat) : Prop :=
 def U (e : PE) : Prop :=
   ∀ (g : Nat) (s : PSt) (rest : List Tok), B e ≤ g + 1 → tk s = e.toks ++ rest →
     stopAt 6 (rest.headD .eof) → s.strict = false → pUnary g s = .ok (done e s)
+
+/-- where a path-level expression (an operand of '|') may end: at anything that is neither a predicate nor a continuation
+    of the path — the '|' included -/
+def stopP (t : Tok) : Prop :=
+  t ≠ .ch (chr '[') ∧ t ≠ .ch (chr '/') ∧ t ≠ .dblslash ∧ startsStep t = false
+
+theorem stopP_of_stopAt {lvl : Nat} {t : Tok} (h : stopAt lvl t) : stopP t := ⟨h.2.2.1, h.2.2.2.1, h.2.2.2.2.1, h.2.2.2.2.2⟩
+
+theorem stopP_bar : stopP (.ch (chr '|')) := by simp [stopP, chr, startsStep]
+
+/-- parsing a path-level expression -/
+def Pth (e : PE) : Prop :=
+  ∀ (g : Nat) (s : PSt) (rest : List Tok), B e ≤ g + 2 → tk s = e.toks ++ rest →
+    stopP (rest.headD .eof) → s.strict = false → pPath g s = .ok (done e s)
 
 theorem peek_done (e : PE) (s : PSt) (rest : List Tok) (h : tk s = e.toks ++ rest) :
     peekTok (done e s) = rest.headD .eof := by
@@ -390,33 +425,50 @@ theorem pPrimary_lit (f : Nat) (s : PSt) (l : List Rune) (h : peekTok s = .lit l
     pPrimary (f + 1) s = .ok (emit (adv s) (.lit l)) := by
   simp only [pPrimary, h]; rfl
 
-/-- a primary that ends in state `s1`, followed by a token at which a unary expression stops -/
-theorem unary_of_primary (g : Nat) (s s1 : PSt) (hneg : peekTok s ≠ .ch (chr '-'))
+/-- a primary that ends in state `s1`, followed by a token at which a path-level expression stops -/
+theorem path_of_primary (g : Nat) (s s1 : PSt)
     (hpath : pPath (g + 1 + 1) s = pFilterPath (g + 1) s)
-    (hprim : pPrimary g s = .ok s1) (hs : stopAt 6 (peekTok s1)) :
-    pUnary (g + 1 + 1 + 1) s = .ok s1 := by
-  rw [pUnary_pos _ _ hneg, hpath, pFilterPath_succ, hprim, ok_bind]
+    (hprim : pPrimary g s = .ok s1) (hs : stopP (peekTok s1)) :
+    pPath (g + 1 + 1) s = .ok s1 := by
+  rw [hpath, pFilterPath_succ, hprim, ok_bind]
   cases g with
   | zero => simp [pPrimary] at hprim
   | succ g =>
-    rw [pPreds_stop g s1 hs.2.2.1, ok_bind, filterTail_stop s1 hs.2.2.2.1 hs.2.2.2.2.1, ok_bind]
-    exact pUnionRest_stop _ _ hs.2.1
+    rw [pPreds_stop g s1 hs.1, ok_bind, filterTail_stop s1 hs.2.1 hs.2.2.1]
 
-theorem U_num (x : SF) : U (.num x) := by
+/-- the first token of a path-level expression is not a minus sign -/
+theorem pl_first (e : PE) (h : e.pl = true) (rest : List Tok) : (e.toks ++ rest).headD .eof ≠ .ch (chr '-') := by
+  cases e <;> simp [PE.pl] at h <;> try (simp [PE.toks, chr])
+  case path root steps =>
+    cases root with
+    | abs => cases steps <;> simp [PE.toks, pathToks, sepToks, chr]
+    | rel f => cases f <;> simp [PE.toks, pathToks, PStep.tok, chr]
+    | cur => simp [PE.toks, pathToks]
+
+/-- a path-level expression where a unary expression is expected: no '|' follows -/
+theorem U_of_Pth (e : PE) (hp : Pth e) (hpl : e.pl = true) : U e := by
+  intro g s rest hg ht hs hst
+  have hB : 8 ≤ B e := by simp [B]
+  obtain ⟨g', rfl⟩ : ∃ g', g = g' + 1 + 1 := ⟨g - 2, by omega⟩
+  have hneg : peekTok s ≠ .ch (chr '-') := by rw [peek_tk, ht]; exact pl_first e hpl rest
+  rw [pUnary_pos _ _ hneg, hp (g' + 1) s rest (by omega) ht (stopP_of_stopAt hs) hst, ok_bind]
+  exact pUnionRest_stop _ _ (by rw [peek_done e s rest ht]; exact hs.2.1)
+
+theorem P_num (x : SF) : Pth (.num x) := by
   intro g s rest hg ht hs hst
   have hp : peekTok s = .num x := by rw [peek_tk, ht]; rfl
   have hd := peek_done (.num x) s rest ht
   rw [done_num] at hd ⊢
-  obtain ⟨g', rfl⟩ : ∃ g', g = g' + 1 + 1 + 1 + 1 := ⟨g - 4, by simp [B, PE.toks] at hg; omega⟩
-  exact unary_of_primary (g' + 1) s _ (by rw [hp]; simp) (pPath_num _ _ x hp) (pPrimary_num _ _ x hp) (by rw [hd]; exact hs)
+  obtain ⟨g', rfl⟩ : ∃ g', g = g' + 1 + 1 + 1 := ⟨g - 3, by simp [B, PE.toks] at hg; omega⟩
+  exact path_of_primary (g' + 1) s _ (pPath_num _ _ x hp) (pPrimary_num _ _ x hp) (by rw [hd]; exact hs)
 
-theorem U_lit (l : List Rune) : U (.lit l) := by
+theorem P_lit (l : List Rune) : Pth (.lit l) := by
   intro g s rest hg ht hs hst
   have hp : peekTok s = .lit l := by rw [peek_tk, ht]; rfl
   have hd := peek_done (.lit l) s rest ht
   rw [done_lit] at hd ⊢
-  obtain ⟨g', rfl⟩ : ∃ g', g = g' + 1 + 1 + 1 + 1 := ⟨g - 4, by simp [B, PE.toks] at hg; omega⟩
-  exact unary_of_primary (g' + 1) s _ (by rw [hp]; simp) (pPath_lit _ _ l hp) (pPrimary_lit _ _ l hp) (by rw [hd]; exact hs)
+  obtain ⟨g', rfl⟩ : ∃ g', g = g' + 1 + 1 + 1 := ⟨g - 3, by simp [B, PE.toks] at hg; omega⟩
+  exact path_of_primary (g' + 1) s _ (pPath_lit _ _ l hp) (pPrimary_lit _ _ l hp) (by rw [hd]; exact hs)
 
 
 theorem U_neg (e : PE) (he : U e) : U (.neg e) := by
@@ -439,10 +491,10 @@ theorem pPrimary_paren (f : Nat) (s : PSt) (h : peekTok s = .ch (chr '(')) (h2 :
     pPrimary (f + 1) s = (pLevel f 0 (adv s) >>= fun s => expectCh ')' s) := by
   simp only [pPrimary, h, ↓reduceIte, h2]
 
-theorem U_paren (e : PE) (he : T e 0) : U (.paren e) := by
+theorem P_paren (e : PE) (he : T e 0) : Pth (.paren e) := by
   intro g s rest hg ht hs hst
   have hp : peekTok s = .ch (chr '(') := by rw [peek_tk, ht]; rfl
-  obtain ⟨g', rfl⟩ : ∃ g', g = g' + 1 + 1 + 1 + 1 := ⟨g - 4, by simp [B, PE.toks] at hg; omega⟩
+  obtain ⟨g', rfl⟩ : ∃ g', g = g' + 1 + 1 + 1 := ⟨g - 3, by simp [B, PE.toks] at hg; omega⟩
   have htk : tk (adv s) = e.toks ++ (.ch (chr ')') :: rest) := by rw [tk_adv, ht]; simp [PE.toks]
   have hp2 : peekTok (adv s) ≠ .ch (chr ')') := by
     obtain ⟨t, r, hr, hst'⟩ := toks_start e
@@ -459,7 +511,7 @@ theorem U_paren (e : PE) (he : T e 0) : U (.paren e) := by
     simp only [this, ↓reduceIte, done_paren]
     rfl
   have hd := peek_done (.paren e) s rest ht
-  exact unary_of_primary (g' + 1) s _ (by rw [hp]; simp [chr]) (pPath_paren _ _ hp) hprim (by rw [hd]; exact hs)
+  exact path_of_primary (g' + 1) s _ (pPath_paren _ _ hp) hprim (by rw [hd]; exact hs)
 
 /-! ### function calls -/
 
@@ -509,10 +561,10 @@ theorem pPrimary_func (f : Nat) (s : PSt) (fn : Fn) (h : peekTok s = .func fn) :
 
 theorem comma_ne_rparen : (Tok.ch (chr ',')) ≠ .ch (chr ')') := by simp [chr]
 
-theorem U_call0 (fn : Fn) (har : fn.sig.1.length = 0) : U (.call0 fn) := by
+theorem P_call0 (fn : Fn) (har : fn.sig.1.length = 0) : Pth (.call0 fn) := by
   intro g s rest hg ht hs hst
   have hp : peekTok s = .func fn := by rw [peek_tk, ht]; rfl
-  obtain ⟨g', rfl⟩ : ∃ g', g = g' + 1 + 1 + 1 + 1 := ⟨g - 4, by simp [B, PE.toks] at hg; omega⟩
+  obtain ⟨g', rfl⟩ : ∃ g', g = g' + 1 + 1 + 1 := ⟨g - 3, by simp [B, PE.toks] at hg; omega⟩
   have h1 : peekTok (adv s) = .ch (chr '(') := by rw [peek_tk, tk_adv, ht]; rfl
   have h2 : peekTok (adv (adv s)) = .ch (chr ')') := by rw [peek_tk, tk_adv, tk_adv, ht]; rfl
   have hprim : pPrimary (g' + 1) s = .ok (done (.call0 fn) s) := by
@@ -520,12 +572,12 @@ theorem U_call0 (fn : Fn) (har : fn.sig.1.length = 0) : U (.call0 fn) := by
     simp only [h2, ↓reduceIte, har, ne_eq, not_true_eq_false, done_call0]
     rfl
   have hd := peek_done (.call0 fn) s rest ht
-  exact unary_of_primary (g' + 1) s _ (by rw [hp]; simp) (pPath_func _ _ fn hp) hprim (by rw [hd]; exact hs)
+  exact path_of_primary (g' + 1) s _ (pPath_func _ _ fn hp) hprim (by rw [hd]; exact hs)
 
-theorem U_call1 (fn : Fn) (a : PE) (har : fn.sig.1.length = 1) (ha : T a 0) : U (.call1 fn a) := by
+theorem P_call1 (fn : Fn) (a : PE) (har : fn.sig.1.length = 1) (ha : T a 0) : Pth (.call1 fn a) := by
   intro g s rest hg ht hs hst
   have hp : peekTok s = .func fn := by rw [peek_tk, ht]; rfl
-  obtain ⟨g', rfl⟩ : ∃ g', g = g' + 1 + 1 + 1 + 1 := ⟨g - 4, by simp [B, PE.toks] at hg; omega⟩
+  obtain ⟨g', rfl⟩ : ∃ g', g = g' + 1 + 1 + 1 := ⟨g - 3, by simp [B, PE.toks] at hg; omega⟩
   have h1 : peekTok (adv s) = .ch (chr '(') := by rw [peek_tk, tk_adv, ht]; rfl
   have hta : tk (adv (adv s)) = a.toks ++ (.ch (chr ')') :: rest) := by rw [tk_adv, tk_adv, ht]; simp [PE.toks]
   have h2 : peekTok (adv (adv s)) ≠ .ch (chr ')') := by rw [peek_tk, hta]; exact first_not_rparen a _
@@ -535,12 +587,12 @@ theorem U_call1 (fn : Fn) (a : PE) (har : fn.sig.1.length = 1) (ha : T a 0) : U 
     simp only [h2, ↓reduceIte, pa, ok_bind, ka, har, ne_eq, not_true_eq_false, done_call1]
     rfl
   have hd := peek_done (.call1 fn a) s rest ht
-  exact unary_of_primary (g' + 1) s _ (by rw [hp]; simp) (pPath_func _ _ fn hp) hprim (by rw [hd]; exact hs)
+  exact path_of_primary (g' + 1) s _ (pPath_func _ _ fn hp) hprim (by rw [hd]; exact hs)
 
-theorem U_call2 (fn : Fn) (a b : PE) (har : fn.sig.1.length = 2) (ha : T a 0) (hb : T b 0) : U (.call2 fn a b) := by
+theorem P_call2 (fn : Fn) (a b : PE) (har : fn.sig.1.length = 2) (ha : T a 0) (hb : T b 0) : Pth (.call2 fn a b) := by
   intro g s rest hg ht hs hst
   have hp : peekTok s = .func fn := by rw [peek_tk, ht]; rfl
-  obtain ⟨g', rfl⟩ : ∃ g', g = g' + 1 + 1 + 1 + 1 := ⟨g - 4, by simp [B, PE.toks] at hg; omega⟩
+  obtain ⟨g', rfl⟩ : ∃ g', g = g' + 1 + 1 + 1 := ⟨g - 3, by simp [B, PE.toks] at hg; omega⟩
   have h1 : peekTok (adv s) = .ch (chr '(') := by rw [peek_tk, tk_adv, ht]; rfl
   have hta : tk (adv (adv s)) = a.toks ++ (.ch (chr ',') :: (b.toks ++ (.ch (chr ')') :: rest))) := by
     rw [tk_adv, tk_adv, ht]; simp [PE.toks]
@@ -556,13 +608,13 @@ theorem U_call2 (fn : Fn) (a b : PE) (har : fn.sig.1.length = 2) (ha : T a 0) (h
       not_true_eq_false, done_call2]
     rfl
   have hd := peek_done (.call2 fn a b) s rest ht
-  exact unary_of_primary (g' + 1) s _ (by rw [hp]; simp) (pPath_func _ _ fn hp) hprim (by rw [hd]; exact hs)
+  exact path_of_primary (g' + 1) s _ (pPath_func _ _ fn hp) hprim (by rw [hd]; exact hs)
 
-theorem U_call3 (fn : Fn) (a b c : PE) (har : fn.sig.1.length = 3) (ha : T a 0) (hb : T b 0) (hc : T c 0) :
-    U (.call3 fn a b c) := by
+theorem P_call3 (fn : Fn) (a b c : PE) (har : fn.sig.1.length = 3) (ha : T a 0) (hb : T b 0) (hc : T c 0) :
+    Pth (.call3 fn a b c) := by
   intro g s rest hg ht hs hst
   have hp : peekTok s = .func fn := by rw [peek_tk, ht]; rfl
-  obtain ⟨g', rfl⟩ : ∃ g', g = g' + 1 + 1 + 1 + 1 := ⟨g - 4, by simp [B, PE.toks] at hg; omega⟩
+  obtain ⟨g', rfl⟩ : ∃ g', g = g' + 1 + 1 + 1 := ⟨g - 3, by simp [B, PE.toks] at hg; omega⟩
   have h1 : peekTok (adv s) = .ch (chr '(') := by rw [peek_tk, tk_adv, ht]; rfl
   have hta : tk (adv (adv s)) =
       a.toks ++ (.ch (chr ',') :: (b.toks ++ (.ch (chr ',') :: (c.toks ++ (.ch (chr ')') :: rest))))) := by
@@ -583,7 +635,18 @@ theorem U_call3 (fn : Fn) (a b c : PE) (har : fn.sig.1.length = 3) (ha : T a 0) 
       expectCh_ok ')' _ kc, har, ne_eq, not_true_eq_false, done_call3]
     rfl
   have hd := peek_done (.call3 fn a b c) s rest ht
-  exact unary_of_primary (g' + 1) s _ (by rw [hp]; simp) (pPath_func _ _ fn hp) hprim (by rw [hd]; exact hs)
+  exact path_of_primary (g' + 1) s _ (pPath_func _ _ fn hp) hprim (by rw [hd]; exact hs)
+
+theorem U_num (x : SF) : U (.num x) := U_of_Pth _ (P_num x) rfl
+theorem U_lit (l : List Rune) : U (.lit l) := U_of_Pth _ (P_lit l) rfl
+theorem U_paren (e : PE) (he : T e 0) : U (.paren e) := U_of_Pth _ (P_paren e he) rfl
+theorem U_call0 (fn : Fn) (har : fn.sig.1.length = 0) : U (.call0 fn) := U_of_Pth _ (P_call0 fn har) rfl
+theorem U_call1 (fn : Fn) (a : PE) (har : fn.sig.1.length = 1) (ha : T a 0) : U (.call1 fn a) :=
+  U_of_Pth _ (P_call1 fn a har ha) rfl
+theorem U_call2 (fn : Fn) (a b : PE) (har : fn.sig.1.length = 2) (ha : T a 0) (hb : T b 0) : U (.call2 fn a b) :=
+  U_of_Pth _ (P_call2 fn a b har ha hb) rfl
+theorem U_call3 (fn : Fn) (a b c : PE) (har : fn.sig.1.length = 3) (ha : T a 0) (hb : T b 0) (hc : T c 0) :
+    U (.call3 fn a b c) := U_of_Pth _ (P_call3 fn a b c har ha hb hc) rfl
 
 /-! ### location paths -/
 
@@ -761,17 +824,16 @@ theorem pPath_step (f : Nat) (s : PSt) (st : PStep) (h : peekTok s = st.tok) :
 
 theorem sepToks_cons (st : PStep) (r : List PStep) : sepToks (st :: r) = .ch (chr '/') :: relToks st r := rfl
 
-theorem U_path (root : PRoot) (steps : List PStep) (hok : pathOK root steps) : U (.path root steps) := by
+theorem P_path (root : PRoot) (steps : List PStep) (hok : pathOK root steps) : Pth (.path root steps) := by
   intro g s rest hg ht hs hst
-  have hr1 := hs.2.2.2.1
-  have hr2 := hs.2.2.2.2.1
-  have hr3 := hs.2.2.1
+  have hr1 := hs.2.1
+  have hr2 := hs.2.2.1
+  have hr3 := hs.1
   cases root with
   | abs =>
     have hp : peekTok s = .ch (chr '/') := by
       rw [peek_tk, ht]; cases steps <;> rfl
-    obtain ⟨g', rfl⟩ : ∃ g', g = g' + 1 + 1 := ⟨g - 2, by simp [B] at hg; omega⟩
-    rw [pUnary_pos _ _ (by rw [hp]; simp [chr])]
+    obtain ⟨g', rfl⟩ : ∃ g', g = g' + 1 := ⟨g - 1, by simp [B] at hg; omega⟩
     cases steps with
     | nil =>
       have hn : peekTok (emit (adv s) .pathRoot) = rest.headD .eof := by
@@ -779,12 +841,11 @@ theorem U_path (root : PRoot) (steps : List PStep) (hok : pathOK root steps) : U
         rw [peek_tk, tk_adv, ht]; simp [PE.toks, pathToks]
       have : pPath (g' + 1) s = .ok (done (.path .abs []) s) := by
         simp only [pPath, hp]
-        simp only [show chr '/' ≠ chr '(' by simp [chr], ↓reduceIte, hn, hs.2.2.2.2.2, Bool.false_eq_true]
+        simp only [show chr '/' ≠ chr '(' by simp [chr], ↓reduceIte, hn, hs.2.2.2, Bool.false_eq_true]
         change Except.ok _ = Except.ok _
         apply congrArg
         apply PSt.ext' <;> simp [done, advN, adv, emit, PE.toks, PE.code, pathToks, pathCode, stepsCode]
-      rw [this, ok_bind]
-      exact pUnionRest_stop _ _ (by rw [peek_done _ s rest ht]; exact hs.2.1)
+      exact this
     | cons st r =>
       have hn : peekTok (emit (adv s) .pathRoot) = st.tok := by
         show peekTok (adv s) = _
@@ -800,12 +861,10 @@ theorem U_path (root : PRoot) (steps : List PStep) (hok : pathOK root steps) : U
         apply PSt.ext' <;>
           simp [done, doneG, advN, adv, emit, PE.toks, PE.code, pathToks, pathCode, stepsCode, sepToks_cons, List.drop_drop,
             Nat.add_comm, Nat.add_assoc, Nat.add_left_comm] <;> omega
-      rw [this, ok_bind]
-      exact pUnionRest_stop _ _ (by rw [peek_done _ s rest ht]; exact hs.2.1)
+      exact this
   | rel f =>
     have hp : peekTok s = f.tok := by rw [peek_tk, ht]; rfl
-    obtain ⟨g', rfl⟩ : ∃ g', g = g' + 1 + 1 := ⟨g - 2, by simp [B] at hg; omega⟩
-    rw [pUnary_pos _ _ (by rw [hp]; cases f <;> simp [PStep.tok, chr])]
+    obtain ⟨g', rfl⟩ : ∃ g', g = g' + 1 := ⟨g - 1, by simp [B] at hg; omega⟩
     have hrel := relPath_ok steps f g' s rest hok.1 hok.2
       (by simp [B, PE.toks, pathToks, relToks] at hg ⊢; omega) (by rw [ht]; simp [PE.toks, pathToks, relToks]) hr1 hr2 hr3 hst
     have : pPath (g' + 1) s = .ok (done (.path (.rel f) steps) s) := by
@@ -814,12 +873,10 @@ theorem U_path (root : PRoot) (steps : List PStep) (hok : pathOK root steps) : U
       apply congrArg
       apply PSt.ext' <;>
         simp [done, doneG, advN, adv, emit, PE.toks, PE.code, pathToks, pathCode, relToks, Nat.add_comm]
-    rw [this, ok_bind]
-    exact pUnionRest_stop _ _ (by rw [peek_done _ s rest ht]; exact hs.2.1)
+    exact this
   | cur =>
     have hp : peekTok s = .currentfunc := by rw [peek_tk, ht]; rfl
-    obtain ⟨g', rfl⟩ : ∃ g', g = g' + 1 + 1 := ⟨g - 2, by simp [B] at hg; omega⟩
-    rw [pUnary_pos _ _ (by rw [hp]; simp)]
+    obtain ⟨g', rfl⟩ : ∃ g', g = g' + 1 := ⟨g - 1, by simp [B] at hg; omega⟩
     have h1 : peekTok (adv s) = .ch (chr '(') := by rw [peek_tk, tk_adv, ht]; simp [PE.toks, pathToks]
     have h2 : peekTok (adv (adv s)) = .ch (chr ')') := by rw [peek_tk, tk_adv, tk_adv, ht]; simp [PE.toks, pathToks]
     cases steps with
@@ -834,8 +891,7 @@ theorem U_path (root : PRoot) (steps : List PStep) (hok : pathOK root steps) : U
         change Except.ok _ = Except.ok _
         apply congrArg
         apply PSt.ext' <;> simp [done, advN, adv, emit, PE.toks, PE.code, pathToks, pathCode, stepsCode, sepToks, Nat.add_assoc]
-      rw [this, ok_bind]
-      exact pUnionRest_stop _ _ (by rw [peek_done _ s rest ht]; exact hs.2.1)
+      exact this
     | cons st r =>
       have hn : peekTok (emit (adv (adv (adv s))) .pathSetCurrent) = .ch (chr '/') := by
         show peekTok (adv (adv (adv s))) = _
@@ -854,8 +910,10 @@ theorem U_path (root : PRoot) (steps : List PStep) (hok : pathOK root steps) : U
         apply PSt.ext' <;>
           simp [done, doneG, advN, adv, emit, PE.toks, PE.code, pathToks, pathCode, stepsCode, sepToks_cons, List.drop_drop,
             Nat.add_comm, Nat.add_assoc, Nat.add_left_comm] <;> omega
-      rw [this, ok_bind]
-      exact pUnionRest_stop _ _ (by rw [peek_done _ s rest ht]; exact hs.2.1)
+      exact this
+
+theorem U_path (root : PRoot) (steps : List PStep) (hok : pathOK root steps) : U (.path root steps) :=
+  U_of_Pth _ (P_path root steps hok) rfl
 
 theorem pLevelRest_op (g k : Nat) (s : PSt) (i : PI) (h : binOpAt k (peekTok s) = some i) :
     pLevelRest (g + 1) k s = (pLevel g (k + 1) (adv s) >>= fun s2 => pLevelRest g k (emit s2 i)) := by
@@ -879,59 +937,108 @@ theorem C_bin (op : BinOp) (a b : PE) (ha : C a (level op)) (hb : T b (level op 
       ← done_bin]
     exact hr g (by omega)
 
+/-! ### unions -/
+
+/-- a union-level expression where a unary expression is expected, the loop over '|' going on after it -/
+def UC (e : PE) : Prop :=
+  ∀ (g : Nat) (s : PSt) (rest : List Tok) (G : Nat) (r : P PSt), 1 ≤ G → B e + G ≤ g + 3 → tk s = e.toks ++ rest →
+    stopP (rest.headD .eof) → s.strict = false →
+    (∀ g', G ≤ g' → pUnionRest g' (done e s) = r) → (pPath g s >>= pUnionRest g) = r
+
+theorem UC_of_Pth (e : PE) (h : Pth e) : UC e := by
+  intro g s rest G r hG hg ht hs hst hr
+  have hB : 8 ≤ B e := by simp [B]
+  rw [h g s rest (by omega) ht hs hst, ok_bind]
+  exact hr g (by omega)
+
+theorem pUnionRest_bar (g : Nat) (s : PSt) (h : peekTok s = .ch (chr '|')) :
+    pUnionRest (g + 1) s = (pPath g (adv s) >>= fun s2 => pUnionRest g (emit s2 .union)) := by
+  simp only [pUnionRest, h, ↓reduceIte]
+
+/-- **union is left-associative and binds tighter than everything else**: `a | b` after the operands so far -/
+theorem UC_union (a b : PE) (ha : UC a) (hb : Pth b) : UC (.union a b) := by
+  intro g s rest G r hG hg ht hs hst hr
+  have hta : tk s = a.toks ++ (.ch (chr '|') :: (b.toks ++ rest)) := by rw [ht]; simp [PE.toks]
+  have hBu : B (.union a b) = B a + B b + 12 := by simp only [B, PE.toks, List.length_append, List.length_cons]; omega
+  apply ha g s _ (G + B b + 1) r (by omega) (by omega) hta stopP_bar hst
+  intro g' hg'
+  obtain ⟨g'', rfl⟩ : ∃ g'', g' = g'' + 1 := ⟨g' - 1, by omega⟩
+  have hpk : peekTok (done a s) = .ch (chr '|') := by rw [peek_done a s _ hta]; rfl
+  have htb : tk (adv (done a s)) = b.toks ++ rest := by rw [tk_adv, tk_done, hta]; simp
+  rw [pUnionRest_bar _ _ hpk, hb g'' (adv (done a s)) rest (by omega) htb hs
+    (by rw [show (adv (done a s)).strict = s.strict from rfl]; exact hst), ok_bind, ← done_union]
+  exact hr g'' (by omega)
+
+theorem U_of_UC (e : PE) (h : UC e) (hfirst : ∀ rest, (e.toks ++ rest).headD .eof ≠ .ch (chr '-')) : U e := by
+  intro g s rest hg ht hs hst
+  have hB : 8 ≤ B e := by simp [B]
+  obtain ⟨g', rfl⟩ : ∃ g', g = g' + 1 := ⟨g - 1, by omega⟩
+  have hneg : peekTok s ≠ .ch (chr '-') := by rw [peek_tk, ht]; exact hfirst rest
+  rw [pUnary_pos _ _ hneg]
+  apply h g' s rest 1 _ (Nat.le_refl _) (by omega) ht (stopP_of_stopAt hs) hst
+  intro g'' hg''
+  obtain ⟨g3, rfl⟩ : ∃ g3, g'' = g3 + 1 := ⟨g'' - 1, by omega⟩
+  exact pUnionRest_stop _ _ (by rw [peek_done e s rest ht]; exact hs.2.1)
+
+theorem ul_first : ∀ (e : PE), e.ul = true → e.fits 6 → ∀ rest, (e.toks ++ rest).headD .eof ≠ .ch (chr '-')
+  | .union a b, _, hf, rest => by
+    have := ul_first a hf.1 hf.2.1 (.ch (chr '|') :: (b.toks ++ rest))
+    simpa [PE.toks] using this
+  | .path r st, h, _, rest => pl_first _ rfl rest
+  | .num x, h, _, rest => pl_first _ rfl rest
+  | .lit x, h, _, rest => pl_first _ rfl rest
+  | .paren e, h, _, rest => pl_first _ rfl rest
+  | .call0 f, h, _, rest => pl_first _ rfl rest
+  | .call1 f a, h, _, rest => pl_first _ rfl rest
+  | .call2 f a b, h, _, rest => pl_first _ rfl rest
+  | .call3 f a b c, h, _, rest => pl_first _ rfl rest
+  | .neg e, h, _, _ => by simp [PE.ul, PE.pl] at h
+  | .bin op a b, h, _, _ => by simp [PE.ul, PE.pl] at h
+
+/-- what the five statements need of an expression that `pPath` parses directly -/
+theorem from_Pth (e : PE) (hpl : e.pl = true) (hfl : ∀ l, e.fits l → e.fits 6) (hp : e.fits 6 → Pth e) :
+    (∀ lvl, lvl ≤ 6 → e.fits lvl → T e lvl) ∧ (∀ k, k ≤ 5 → e.fits k → C e k) ∧ (e.fits 6 → U e) ∧
+      (e.pl = true → e.fits 6 → Pth e) ∧ (e.ul = true → e.fits 6 → UC e) := by
+  have hu : e.fits 6 → U e := fun hf => U_of_Pth e (hp hf) hpl
+  refine ⟨fun lvl h hf => ?_, fun k h hf => ?_, hu, fun _ => hp, fun _ hf => UC_of_Pth e (hp hf)⟩
+  · exact ((ladder _ 6 (Nat.le_refl _) (T6_of_U _ (hu (hfl _ hf)))) (6 - lvl) lvl (by omega)).1
+  · exact ((ladder _ 6 (Nat.le_refl _) (T6_of_U _ (hu (hfl _ hf)))) (6 - k) k (by omega)).2 (by omega)
+
 /-- **precedence and associativity**: every expression that carries the parentheses its shape needs parses,
     at every level it fits, to the postfix code of its tree -/
-theorem prec_main (e : PE) :
-    (∀ lvl, lvl ≤ 6 → e.fits lvl → T e lvl) ∧ (∀ k, k ≤ 5 → e.fits k → C e k) ∧ (e.fits 6 → U e) := by
+theorem prec_all (e : PE) :
+    (∀ lvl, lvl ≤ 6 → e.fits lvl → T e lvl) ∧ (∀ k, k ≤ 5 → e.fits k → C e k) ∧ (e.fits 6 → U e) ∧
+      (e.pl = true → e.fits 6 → Pth e) ∧ (e.ul = true → e.fits 6 → UC e) := by
   induction e with
-  | path root steps =>
-    have hu : (PE.path root steps).fits 6 → U (.path root steps) := fun hf => U_path root steps hf
-    refine ⟨fun lvl h hf => ?_, fun k h hf => ?_, hu⟩
-    · exact ((ladder _ 6 (Nat.le_refl _) (T6_of_U _ (hu hf))) (6 - lvl) lvl (by omega)).1
-    · exact ((ladder _ 6 (Nat.le_refl _) (T6_of_U _ (hu hf))) (6 - k) k (by omega)).2 (by omega)
-  | num x =>
-    have hl := ladder (.num x) 6 (Nat.le_refl _) (T6_of_U _ (U_num x))
-    exact ⟨fun lvl h _ => (hl (6 - lvl) lvl (by omega)).1, fun k h _ => (hl (6 - k) k (by omega)).2 (by omega), fun _ => U_num x⟩
-  | lit l =>
-    have hl := ladder (.lit l) 6 (Nat.le_refl _) (T6_of_U _ (U_lit l))
-    exact ⟨fun lvl h _ => (hl (6 - lvl) lvl (by omega)).1, fun k h _ => (hl (6 - k) k (by omega)).2 (by omega), fun _ => U_lit l⟩
-  | paren e ih =>
-    have hu : (PE.paren e).fits 6 → U (.paren e) := fun hf => U_paren e (ih.1 0 (by omega) hf)
-    refine ⟨fun lvl h hf => ?_, fun k h hf => ?_, hu⟩
-    · exact ((ladder _ 6 (Nat.le_refl _) (T6_of_U _ (hu hf))) (6 - lvl) lvl (by omega)).1
-    · exact ((ladder _ 6 (Nat.le_refl _) (T6_of_U _ (hu hf))) (6 - k) k (by omega)).2 (by omega)
-  | neg e ih =>
-    have hu : (PE.neg e).fits 6 → U (.neg e) := fun hf => U_neg e (ih.2.2 hf)
-    refine ⟨fun lvl h hf => ?_, fun k h hf => ?_, hu⟩
-    · exact ((ladder _ 6 (Nat.le_refl _) (T6_of_U _ (hu hf))) (6 - lvl) lvl (by omega)).1
-    · exact ((ladder _ 6 (Nat.le_refl _) (T6_of_U _ (hu hf))) (6 - k) k (by omega)).2 (by omega)
-  | call0 fn =>
-    have hu : (PE.call0 fn).fits 6 → U (.call0 fn) := fun hf => U_call0 fn hf
-    refine ⟨fun lvl h hf => ?_, fun k h hf => ?_, hu⟩
-    · exact ((ladder _ 6 (Nat.le_refl _) (T6_of_U _ (hu hf))) (6 - lvl) lvl (by omega)).1
-    · exact ((ladder _ 6 (Nat.le_refl _) (T6_of_U _ (hu hf))) (6 - k) k (by omega)).2 (by omega)
-  | call1 fn a iha =>
-    have hu : (PE.call1 fn a).fits 6 → U (.call1 fn a) := fun hf => U_call1 fn a hf.1 (iha.1 0 (by omega) hf.2)
-    refine ⟨fun lvl h hf => ?_, fun k h hf => ?_, hu⟩
-    · exact ((ladder _ 6 (Nat.le_refl _) (T6_of_U _ (hu hf))) (6 - lvl) lvl (by omega)).1
-    · exact ((ladder _ 6 (Nat.le_refl _) (T6_of_U _ (hu hf))) (6 - k) k (by omega)).2 (by omega)
+  | path root steps => exact from_Pth _ rfl (fun _ h => h) (fun hf => P_path root steps hf)
+  | num x => exact from_Pth _ rfl (fun _ h => h) (fun _ => P_num x)
+  | lit l => exact from_Pth _ rfl (fun _ h => h) (fun _ => P_lit l)
+  | paren e ih => exact from_Pth _ rfl (fun _ h => h) (fun hf => P_paren e (ih.1 0 (by omega) hf))
+  | call0 fn => exact from_Pth _ rfl (fun _ h => h) (fun hf => P_call0 fn hf)
+  | call1 fn a iha => exact from_Pth _ rfl (fun _ h => h) (fun hf => P_call1 fn a hf.1 (iha.1 0 (by omega) hf.2))
   | call2 fn a b iha ihb =>
-    have hu : (PE.call2 fn a b).fits 6 → U (.call2 fn a b) := fun hf =>
-      U_call2 fn a b hf.1 (iha.1 0 (by omega) hf.2.1) (ihb.1 0 (by omega) hf.2.2)
-    refine ⟨fun lvl h hf => ?_, fun k h hf => ?_, hu⟩
+    exact from_Pth _ rfl (fun _ h => h) (fun hf => P_call2 fn a b hf.1 (iha.1 0 (by omega) hf.2.1) (ihb.1 0 (by omega) hf.2.2))
+  | call3 fn a b c iha ihb ihc =>
+    exact from_Pth _ rfl (fun _ h => h) (fun hf =>
+      P_call3 fn a b c hf.1 (iha.1 0 (by omega) hf.2.1) (ihb.1 0 (by omega) hf.2.2.1) (ihc.1 0 (by omega) hf.2.2.2))
+  | neg e ih =>
+    have hu : (PE.neg e).fits 6 → U (.neg e) := fun hf => U_neg e (ih.2.2.1 hf)
+    refine ⟨fun lvl h hf => ?_, fun k h hf => ?_, hu, fun h => by simp [PE.pl] at h, fun h => by simp [PE.ul, PE.pl] at h⟩
     · exact ((ladder _ 6 (Nat.le_refl _) (T6_of_U _ (hu hf))) (6 - lvl) lvl (by omega)).1
     · exact ((ladder _ 6 (Nat.le_refl _) (T6_of_U _ (hu hf))) (6 - k) k (by omega)).2 (by omega)
-  | call3 fn a b c iha ihb ihc =>
-    have hu : (PE.call3 fn a b c).fits 6 → U (.call3 fn a b c) := fun hf =>
-      U_call3 fn a b c hf.1 (iha.1 0 (by omega) hf.2.1) (ihb.1 0 (by omega) hf.2.2.1) (ihc.1 0 (by omega) hf.2.2.2)
-    refine ⟨fun lvl h hf => ?_, fun k h hf => ?_, hu⟩
+  | union a b iha ihb =>
+    have huc : (PE.union a b).fits 6 → UC (.union a b) := fun hf =>
+      UC_union a b (iha.2.2.2.2 hf.1 hf.2.1) (ihb.2.2.2.1 hf.2.2.1 hf.2.2.2)
+    have hu : (PE.union a b).fits 6 → U (.union a b) := fun hf =>
+      U_of_UC _ (huc hf) (ul_first _ rfl hf)
+    refine ⟨fun lvl h hf => ?_, fun k h hf => ?_, hu, fun h => by simp [PE.pl] at h, fun _ hf => huc hf⟩
     · exact ((ladder _ 6 (Nat.le_refl _) (T6_of_U _ (hu hf))) (6 - lvl) lvl (by omega)).1
     · exact ((ladder _ 6 (Nat.le_refl _) (T6_of_U _ (hu hf))) (6 - k) k (by omega)).2 (by omega)
   | bin op a b iha ihb =>
     have hk : level op ≤ 5 := by cases op <;> simp [level]
     have hc : ∀ l, (PE.bin op a b).fits l → C (.bin op a b) (level op) := fun l hf =>
       C_bin op a b (iha.2.1 (level op) hk hf.2.1) (ihb.1 (level op + 1) (by omega) hf.2.2)
-    refine ⟨fun lvl h hf => ?_, fun k h hf => ?_, fun hf => ?_⟩
+    refine ⟨fun lvl h hf => ?_, fun k h hf => ?_, fun hf => ?_, fun h => by simp [PE.pl] at h, fun h => by simp [PE.ul, PE.pl] at h⟩
     · have hle : lvl ≤ level op := hf.1
       exact ((ladder _ (level op) (by omega) (T_of_C _ _ (hc lvl hf))) (level op - lvl) lvl (by omega)).1
     · have hle : k ≤ level op := hf.1
@@ -941,13 +1048,17 @@ theorem prec_main (e : PE) :
     · have : 6 ≤ level op := hf.1
       omega
 
+theorem prec_main (e : PE) :
+    (∀ lvl, lvl ≤ 6 → e.fits lvl → T e lvl) ∧ (∀ k, k ≤ 5 → e.fits k → C e k) ∧ (e.fits 6 → U e) :=
+  ⟨(prec_all e).1, (prec_all e).2.1, (prec_all e).2.2.1⟩
+
 
 /-! ### the whole parser -/
 
 /-- the tree behind the written expression: parentheses removed -/
 inductive ET where
   | path (code : List PI)      -- a location path: what it compiles to (its predicates' texts may differ in parentheses)
-  | num (x : SF) | lit (s : List Rune) | neg (e : ET) | bin (op : BinOp) (a b : ET)
+  | num (x : SF) | lit (s : List Rune) | neg (e : ET) | bin (op : BinOp) (a b : ET) | union (a b : ET)
   | call0 (fn : Fn) | call1 (fn : Fn) (a : ET) | call2 (fn : Fn) (a b : ET) | call3 (fn : Fn) (a b c : ET)
   deriving Repr, DecidableEq
 
@@ -958,6 +1069,7 @@ def PE.tree : PE → ET
   | .paren e => e.tree
   | .neg e => .neg e.tree
   | .bin op a b => .bin op a.tree b.tree
+  | .union a b => .union a.tree b.tree
   | .call0 fn => .call0 fn
   | .call1 fn a => .call1 fn a.tree
   | .call2 fn a b => .call2 fn a.tree b.tree
@@ -969,6 +1081,7 @@ def ET.code : ET → List PI
   | .lit s => [.lit s]
   | .neg e => e.code ++ [.negate]
   | .bin op a b => a.code ++ b.code ++ [binPI op]
+  | .union a b => a.code ++ b.code ++ [.union]
   | .call0 fn => [.bltin fn]
   | .call1 fn a => a.code ++ [.bltin fn]
   | .call2 fn a b => a.code ++ b.code ++ [.bltin fn]
@@ -982,6 +1095,7 @@ theorem code_tree (e : PE) : e.code = e.tree.code := by
   | paren e ih => simpa [PE.code, PE.tree] using ih
   | neg e ih => simp [PE.code, PE.tree, ET.code, ih]
   | bin op a b iha ihb => simp [PE.code, PE.tree, ET.code, iha, ihb]
+  | union a b iha ihb => simp [PE.code, PE.tree, ET.code, iha, ihb]
   | call0 fn => rfl
   | call1 fn a iha => simp [PE.code, PE.tree, ET.code, iha]
   | call2 fn a b iha ihb => simp [PE.code, PE.tree, ET.code, iha, ihb]
